@@ -25,6 +25,8 @@ pub struct InFlight {
     pub op: Option<Op>,
     /// free-form description of the call (model-free explorer)
     pub note: Option<String>,
+    /// the call in flight addresses a removed node (it has to be refused: C12)
+    pub removed_involved: bool,
 }
 static WATCH: OnceLock<Vec<Mutex<Option<InFlight>>>> = OnceLock::new();
 pub fn watch_slots() -> &'static Vec<Mutex<Option<InFlight>>> {
@@ -333,6 +335,7 @@ pub fn explore(cfg: &RunCfg, known: &Known) -> Report {
                                 path,
                                 op: None,
                                 note: None,
+                                removed_involved: false,
                             });
                         }
                         let before = if target & step::C13 != 0 {
@@ -344,6 +347,11 @@ pub fn explore(cfg: &RunCfg, known: &Known) -> Report {
                             if let Some(w) = watch_slots()[my_slot()].lock().unwrap().as_mut() {
                                 w.since = Instant::now();
                                 w.op = Some(op);
+                                w.removed_involved = match op {
+                                    Op::AppendValue(p) | Op::TreeNest(p) => !s.model.is_live(p),
+                                    Op::Insert(_, a, b) => !s.model.is_live(a) || !s.model.is_live(b),
+                                    _ => false,
+                                };
                             }
                             let r = step::step(s, op, &cfg.judge);
                             out.transitions += 1;
@@ -602,12 +610,57 @@ pub fn explore_shapes(cfg: &RunCfg, max_nodes: usize, known: &Known) -> Report {
     for n in 2..=max_nodes {
         shapes.extend(crate::pp::shapes(n));
     }
+    // families of bigger shapes (work lists kept inline up to 8 / 16 / 32 entries, counters per level):
+    // combs — a spine of d nodes each with a younger (or elder) leaf sibling, one more child under the
+    // last — and brooms. For these only the transitions are judged (the per-state judges are exponential).
+    let small = shapes.len();
+    {
+        let depths: &[usize] = if max_nodes >= 9 { &[9, 10, 17, 18, 33, 34, 65, 66] } else if max_nodes >= 8 { &[9, 17, 33] } else { &[9, 17] };
+        for &d in depths {
+            // younger-sibling comb: node i (spine) has children [spine i+1, leaf]
+            let mut p = vec![usize::MAX];
+            let mut spine = 0usize;
+            for _ in 0..d {
+                let me = p.len();
+                p.push(spine);
+                spine = me;
+            }
+            // (pre-order: the leaves come after the whole spine below them: append them deepest first)
+            let spine_nodes: Vec<usize> = (0..=d).collect();
+            let mut comb = p.clone();
+            comb.push(d); // one more child under the last spine node
+            for lvl in (0..d).rev() {
+                comb.push(spine_nodes[lvl]);
+            }
+            shapes.push(comb);
+            // elder-sibling comb: node i has children [leaf, spine i+1]
+            let mut e = vec![usize::MAX];
+            let mut cur = 0usize;
+            for _ in 0..d {
+                e.push(cur); // the leaf first
+                let me = e.len();
+                e.push(cur);
+                cur = me;
+            }
+            shapes.push(e);
+            // broom: a chain of d nodes with d leaves under the last
+            let mut b = p.clone();
+            for _ in 0..d {
+                b.push(d);
+            }
+            shapes.push(b);
+        }
+    }
     let target = cfg.judge.target;
     let quiet = JudgeCfg::default();
+    let shapes_ref = &shapes;
     let results: Vec<(u64, u64, Vec<(Failure, Vec<Op>, Option<Op>)>)> = pool.install(|| {
         shapes
             .par_iter()
-            .map(|parent| {
+            .enumerate()
+            .map(|(shape_no, parent)| {
+                let big = shape_no >= small;
+                let _ = shapes_ref;
                 let mut out: Vec<(Failure, Vec<Op>, Option<Op>)> = Vec::new();
                 let (mut st_n, mut tr_n) = (0u64, 0u64);
                 for chain_variant in [false, true] {
@@ -637,10 +690,29 @@ pub fn explore_shapes(cfg: &RunCfg, max_nodes: usize, known: &Known) -> Report {
                     }
                     st_n += 1;
                     let mut ctr = StateJudgeCounters { pulls: 0, product_steps: 0, lockstep: 0 };
-                    for f in judges::judge_state(&s, &cfg.judge, &cfg.profile, 64, 64, &mut ctr) {
-                        out.push((f, path.clone(), None));
+                    if !big {
+                        for f in judges::judge_state(&s, &cfg.judge, &cfg.profile, 64, 64, &mut ctr) {
+                            out.push((f, path.clone(), None));
+                        }
+                    } else if chain_variant {
+                        continue;
                     }
-                    for op in step::enabled_ops(&s, parent.len() + 1, 64, &cfg.profile) {
+                    for op in step::enabled_ops(&s, parent.len() + 1, 200, &cfg.profile) {
+                        if big {
+                            // removals, detach and moves of/under a few nodes (root, first spine nodes, the middle, the last)
+                            let n = parent.len();
+                            let few = |x: usize| x <= 2 || x == n / 2 || x + 2 >= n;
+                            let keep = match op {
+                                Op::Remove(_) | Op::RemoveSubtree(_) | Op::Detach(_) => true,
+                                Op::Insert(_, a, b) => few(a) && few(b),
+                                Op::AppendValue(x) => few(x),
+                                Op::NewNode | Op::Clear | Op::RoundTrip => true,
+                                _ => false,
+                            };
+                            if !keep {
+                                continue;
+                            }
+                        }
                         tr_n += 1;
                         let r = step::step(&s, op, &cfg.judge);
                         let shaped = r.failures.iter().any(|f| f.shaping);
@@ -648,6 +720,9 @@ pub fn explore_shapes(cfg: &RunCfg, max_nodes: usize, known: &Known) -> Report {
                             out.push((f, path.clone(), Some(op)));
                         }
                         if shaped {
+                            continue;
+                        }
+                        if big {
                             continue;
                         }
                         if let Some(n) = r.next {
@@ -697,7 +772,7 @@ pub fn explore_shapes(cfg: &RunCfg, max_nodes: usize, known: &Known) -> Report {
     }
     rep.violations.sort_by_key(|v| v.path.len());
     rep.traces_validated = rep.states;
-    rep.samples.push(vec![format!("{} tree shapes with 2..={} nodes, each also as the top-level chain left by removing its root; every operation applied once", shapes.len(), max_nodes)]);
+    rep.samples.push(vec![format!("{} tree shapes with 2..={} nodes, each also as the top-level chain left by removing its root; every operation applied once; plus {} combs / brooms of up to {} nodes (removals, detach and moves among a few nodes)", small, max_nodes, shapes.len() - small, shapes.iter().map(|p| p.len()).max().unwrap_or(0))]);
     rep.wall_s = t0.elapsed().as_secs_f64();
     rep
 }
